@@ -49,8 +49,24 @@ def rootkey(e, ids):
     return f"(RNode {ids[id(e)]})"
 
 
+class NoIntrospection(Exception):
+    pass
+
+
 def hit_sequences(rng, big):
-    """Returns (cases, bypass_violations)."""
+    """Returns (cases, bypass_violations).  Raises NoIntrospection when a cache no longer exposes
+    cache_info()/cache_clear() (the hit/miss tie cannot be observed; the interference search still runs)."""
+    import optyx.core.compiler as _C
+    import optyx.core.autodiff as _AD
+    import optyx.analysis as _AN
+    for mod, nm in ((_C, "_compile_cached"), (_AD, "_gradient_cached"), (_AN, "_compute_degree_cached")):
+        f = getattr(mod, nm, None)
+        if f is None or not hasattr(f, "cache_info") or not hasattr(f, "cache_clear"):
+            raise NoIntrospection(f"{mod.__name__}.{nm} is not a functools.lru_cache any more")
+    return _hit_sequences(rng, big)
+
+
+def _hit_sequences(rng, big):
     import numpy as np
     import ser
     import optyx.core.compiler as C
@@ -123,55 +139,102 @@ def hit_sequences(rng, big):
     return cases, bad
 
 
-def build_M(tag_values):
-    """The model under observation; names x, y, x[i], p are deliberately common."""
+def model(r, M=False):
+    """A model over the deliberately common names x, y, x[i], p.  M=True: the model under
+    observation (fixed); otherwise a random other model reusing the same names with different
+    values, bounds and structure."""
     import numpy as np
-    from optyx import Variable, VectorVariable, Parameter, Problem
+    from optyx import Variable, VectorVariable, Parameter
     from optyx.core import functions as F
-    x = Variable("x", lb=0.0, ub=4.0)
-    y = Variable("y", lb=-1.0, ub=3.0)
-    v = VectorVariable("x", 3, lb=0.0, ub=2.0)
-    p = Parameter("p", tag_values["p"])
-    e1 = p * x ** 2 + F.sin(y) * x + v.dot(v)
-    e2 = 2 * x + 3 * y + np.array([1.0, 2.0, 3.0]) @ v + 1.5
-    return dict(x=x, y=y, v=v, p=p, e1=e1, e2=e2)
+    if M:
+        x = Variable("x", lb=0.0, ub=4.0)
+        y = Variable("y", lb=-1.0, ub=3.0)
+        v = VectorVariable("x", 3, lb=0.0, ub=2.0)
+        p = Parameter("p", 3.0)
+        e1 = p * x ** 2 + F.sin(y) * x + v.dot(v)
+        e2 = 2 * x + 3 * y + np.array([1.0, 2.0, 3.0]) @ v + 1.5
+        e3 = p * x + y * y                     # d/dx is the bare Parameter
+        return dict(x=x, y=y, v=v, p=p, e1=e1, e2=e2, e3=e3)
+    x = Variable("x", lb=r.choice([None, -5.0, 1.0]), ub=r.choice([None, 9.0]))
+    y = Variable("y")
+    v = VectorVariable("x", r.choice([2, 3, 3, 4]))
+    p = Parameter("p", r.choice([-1.0, 0.5, 11.0, 7.0]))
+    e1 = r.choice([p * x ** 2 + F.sin(y) * x + v.dot(v), p * x + y, x * y + p, F.cos(x) + p * v.sum(), v.dot(v) + p * x * y])
+    e2 = r.choice([2 * x + 3 * y + v.sum() + 1.5, x - y + 2.0 * v[0], 5 * x + y])
+    e3 = r.choice([p * x + y * y, p * x + y ** 3, p * y + x * x])
+    return dict(x=x, y=y, v=v, p=p, e1=e1, e2=e2, e3=e3)
 
 
-def observe_M():
+def entries(Md, solve=True):
+    """Every public entry point that goes through a process-wide cache, on one model."""
     import numpy as np
     import optyx.core.autodiff as AD
     import optyx.core.compiler as C
     import optyx.analysis as AN
     from optyx import Problem
-    M = build_M({"p": 3.0})
-    V = [M["x"], M["y"]] + list(M["v"])
-    pt = np.array([0.5, 1.25, 0.75, 1.5, 0.25])
+    x, y, v, p = Md["x"], Md["y"], Md["v"], Md["p"]
+    V = [x, y] + list(v)
+    V2 = [x, y]
+    pt = np.array([0.5, 1.25, 0.75, 1.5, 0.25, 0.5][:len(V)])
+    pt2 = np.array([0.5, 1.25])
     out = {}
-    out["value"] = [float(C.compile_expression(M["e1"], V)(pt)), float(C.compile_expression(M["e2"], V)(pt)),
-                    float(C.compile_expression(M["p"], V)(pt)), float(C.compile_expression(M["x"], V)(pt))]
-    out["grad"] = [float(t) for t in C.compile_gradient(M["e1"], V)(pt)] + [float(t) for t in AD.compile_jacobian([M["e2"]], V)(pt).reshape(-1)]
-    out["dparam"] = float(C.compile_expression(AD.gradient(M["p"] * M["x"], M["x"]), V)(pt))
-    out["degree"] = [AN.compute_degree(M["e1"]), AN.compute_degree(M["e2"]), M["e2"].is_linear()]
-    with warnings.catch_warnings():
-        warnings.simplefilter("ignore")
-        s1 = Problem().minimize(M["e1"]).subject_to(M["x"] + M["y"] >= 1).solve(method="SLSQP")
-        s2 = Problem().maximize(M["e2"]).subject_to(M["v"].sum() <= 4).solve()
-    out["nlp"] = [s1.status.value, s1.objective_value, sorted(s1.values.items())]
-    out["lp"] = [s2.status.value, s2.objective_value, sorted(s2.values.items())]
+    out["value"] = [float(C.compile_expression(Md["e1"], V)(pt)), float(C.compile_expression(Md["e2"], V)(pt)),
+                    float(C.compile_expression(p, V)(pt)), float(C.compile_expression(x, V)(pt)),
+                    float(C.compile_expression(Md["e3"], V2)(pt2))]
+    out["grad"] = [float(t) for t in C.compile_gradient(Md["e1"], V)(pt)] + [float(t) for t in AD.compile_jacobian([Md["e2"]], V)(pt).reshape(-1)]
+    out["jac_param_entry"] = [float(t) for t in AD.compile_jacobian([Md["e3"]], V2)(pt2).reshape(-1)] + \
+                             [float(t) for t in AD.compile_jacobian([Md["e3"], Md["e1"]], V)(pt).reshape(-1)]
+    out["hess"] = [float(t) for t in AD.compile_hessian(Md["e3"], V2)(pt2).reshape(-1)] + \
+                  [float(t) for t in AD.compile_hessian(Md["e1"], V)(pt).reshape(-1)]
+    out["dparam"] = float(C.compile_expression(AD.gradient(p * x, x), V)(pt))
+    out["grad_tree"] = [repr(AD.gradient(Md["e3"], w))[:200] for w in (x, y)]
+    out["degree"] = [AN.compute_degree(Md["e1"]), AN.compute_degree(Md["e2"]), bool(AN.is_linear(Md["e2"])), AN.compute_degree(Md["e3"]),
+                     bool(AN.is_quadratic(Md["e3"]))]
+    if solve:
+        with warnings.catch_warnings():
+            warnings.simplefilter("ignore")
+            s1 = Problem().minimize(Md["e1"]).subject_to(x + y >= 1).solve(method="SLSQP")
+            s2 = Problem().maximize(Md["e2"]).subject_to(v.sum() <= 4).subject_to(x <= 3).subject_to(y <= 3).solve()
+            s3 = Problem().minimize(Md["e3"] + x * x).subject_to(x + y >= 1).solve(method="SLSQP")
+        out["nlp"] = [s1.status.value, s1.objective_value, sorted(s1.values.items())]
+        out["lp"] = [s2.status.value, s2.objective_value, sorted(s2.values.items())]
+        out["nlp_param"] = [s3.status.value, s3.objective_value, sorted(s3.values.items())]
+    return out
+
+
+def observe_M():
+    import optyx.analysis as AN
+    from optyx import Variable
+    out = entries(model(None, M=True))
+    # freshly allocated models after whatever the prefix left behind: the degree of a NEW object
+    # must not be answered from an entry of a dead one (address reuse)
+    x = Variable("x")
+    degs = []
+    for j in range(400):
+        e = (x - j) ** 2 + 1
+        degs.append((AN.compute_degree(e), bool(AN.is_linear(e))))
+    out["fresh_degrees"] = sorted(set(degs))
     return out
 
 
 def prefix(seed, k_compile, k_grad):
-    """Other models reusing M's names with different values, bounds and structure."""
+    """Other models reusing M's names with different values, bounds and structure, pushed through
+    every entry point - more of them than any cache holds - and then dropped."""
+    import gc
     import numpy as np
     import optyx.core.autodiff as AD
     import optyx.core.compiler as C
+    import optyx.analysis as AN
     from optyx import Variable, VectorVariable, Parameter, Problem, Constant
     from optyx.core import functions as F
     r = random.Random(seed)
     keep = []
+    n = 0
     with warnings.catch_warnings():
         warnings.simplefilter("ignore")
+        for i in range(max(3, k_compile // 12)):
+            entries(model(r), solve=(i % 23 == 0))
+            n += 1
         for i in range(k_compile):
             x = Variable("x", lb=r.choice([None, -5.0, 1.0]), ub=r.choice([None, 9.0]))
             y = Variable("y")
@@ -182,15 +245,26 @@ def prefix(seed, k_compile, k_grad):
             f = C.compile_expression(e, V)
             f(np.ones(len(V)))
             keep.append((e, f))
-            if i % 97 == 0:
-                Problem().minimize(x ** 2 + p * y ** 2).subject_to(x + y >= p).solve(method="SLSQP")
-                Problem().minimize(x + 2 * y).subject_to(x + y >= 1).subject_to(x <= 3).subject_to(y <= 3).solve()
         for i in range(k_grad):
             x, y = Variable("x"), Variable("y")
             p = Parameter("p", float(i % 7))
             e = r.choice([p * x, x * y, Constant(float(i)) * x + p, x, p])
             keep.append(AD.gradient(e, r.choice([x, y])))
-    return len(keep)
+        # degree cache: many short-lived linear models, a re-query loop on one kept model, then
+        # everything is released so that addresses can be reused by the observed models
+        x = Variable("x")
+        kept = 2 * x + 1
+        for i in range(k_grad):
+            e = 2 * x + float(i)
+            AN.compute_degree(e)
+            AN.is_linear(e)
+            if i % 3 == 0:
+                AN.compute_degree(kept)
+            del e
+    n += len(keep)
+    del keep
+    gc.collect()
+    return n
 
 
 def worker(mode, seed, k_compile, k_grad):
@@ -205,11 +279,16 @@ def run(rep: vk.Report):
     vk.proof_stage(rep, "C14")
     rng = common.rng_for(rep.seed, "C14")
     big = rep.tier != "quick"
-    raw, bad = hit_sequences(rng, big)
+    try:
+        raw, bad = hit_sequences(rng, big)
+    except NoIntrospection as ex:
+        raw, bad = [], []
+        rep.violation({"kind": "correspondence", "obligation": "the three process-wide caches are functools.lru_cache objects whose hit/miss "
+                       "behaviour can be compared with the LRU model (Caches.v)", "error": str(ex)}, concrete=False)
     cases = Cases("lru", IMPORTS, CASE_TYPE, CHECKER, defs=DEFS)
     for term, meta in raw:
         cases.add(term, meta, kinds={meta["cache"], f"round{meta['round']}", f"calls{meta['calls']}"})
-    fails = cases.run(shard=3)
+    fails = cases.run(shard=3) if raw else []
     for b in bad[:5]:
         rep.violation(dict(b, kind="bypass", obligation="a bare Parameter root is not served from the name-keyed compile cache"), concrete=True)
     for i in fails:
